@@ -58,6 +58,12 @@ def gen(rng, tier):
         for p in ps:
             cases.append({"kind": "levels", "perm": list(p), "wrapper": rng.choice(["C", "T", "S", "C-sum"]),
                           "seed": rng.randrange(10 ** 6)})
+    for k in (3, 4):
+        lv = ["a", "b", "c", "d"][:k]
+        for p_ in (list(itertools.permutations(lv)) if tier == "thorough" else rng.sample(list(itertools.permutations(lv)), 5)):
+            for w in ("C", "T", "S", "C-sum"):
+                cases.append({"kind": "levels", "perm": list(p_), "wrapper": w, "seed": rng.randrange(10 ** 6),
+                              "ordered": True})
     # levels= with a repeated entry is refused (a level list names every level once)
     for dup in (["a", "b", "a"], ["a", "b", "c", "b"], ["c", "c", "a", "b"], ["a", "a"]):
         for w in ("C", "T", "S", "C-sum"):
@@ -93,8 +99,15 @@ def _design_case(c):
         n = rng.randint(len(lv) + 2, 14)
         vals = lv + [rng.choice(lv) for _ in range(n - len(lv))]
         rng.shuffle(vals)
-        fr = {"columns": [dm.col("y", "float", [str(rng.randint(-5, 5)) for _ in range(n)]),
-                          dm.col("q", "str", vals)]}
+        qcol = dm.col("q", "str", vals)
+        if c.get("ordered"):
+            # an ORDERED categorical whose declared order is yet another permutation: levels= wins
+            cats = list(lv)
+            rng.shuffle(cats)
+            if cats == list(c["perm"]):
+                cats = cats[1:] + cats[:1]
+            qcol = dm.col("q", "ordcat", vals, categories=cats)
+        fr = {"columns": [dm.col("y", "float", [str(rng.randint(-5, 5)) for _ in range(n)]), qcol]}
         w = c["wrapper"]
         call = {"C": "C(q, levels=lv)", "T": "T(q, levels=lv)", "S": "S(q, levels=lv)",
                 "C-sum": "C(q, Sum, levels=lv)"}[w]
